@@ -53,8 +53,9 @@ def direct_trace(rng, cls, listing, shapes, diag, foreign=("other",), T=None):
         arr = np.zeros((T, size), np.float32)
         for o in range(size):
             scale = 2.0 ** (j % 6) * (1 + 0.1 * j)
-            arr[:, o] = np.float32(scale * (np.array([rng.gauss(0, 1) for _ in range(T)]) + 0.5 * shared)
-                                   + rng.uniform(-3, 3))
+            # (some coordinates sit far from zero: |mean| / sd around 1e3, e.g. an uncentred intercept)
+            offset = rng.uniform(-3, 3) if rng.random() < 0.75 else rng.choice([-1.0, 1.0]) * 500.0 * scale
+            arr[:, o] = np.float32(scale * (np.array([rng.gauss(0, 1) for _ in range(T)]) + 0.5 * shared) + offset)
             cols[(rank[n], o + 1)] = arr[:, o]
             j += 1
         hist[n] = jnp.asarray(arr.reshape((T,) + tuple(shapes[n])))
@@ -83,7 +84,7 @@ def direct_trace(rng, cls, listing, shapes, diag, foreign=("other",), T=None):
 
 def direct_traces(rng, quick=True):
     out = []
-    shape_opts = [(), (2,)] if quick else [(), (2,), (2, 2), (3,)]
+    shape_opts = [(), (2,), (2, 3)] if quick else [(), (2,), (2, 2), (3,), (2, 3), (3, 2)]
     for cls in (gs.HMCKernel, gs.NUTSKernel):
         for K in (1, 2, 3):
             pools = [rng.sample(NAMES, K) for _ in range(2 if quick else 6)]
